@@ -38,11 +38,18 @@ const bound = 1 // polls allowed after the firing one (the entry point's guard p
 
 type cctx struct {
 	context.Context
-	n     int64
-	fire  int64
-	err   error
-	sites []string
+	n      int64
+	fire   int64
+	err    error
+	sites  []string
+	cancel context.CancelCauseFunc // set: the embedded context is a real one, cancelled WITH A CAUSE at the firing poll
 }
+
+var errReason = errors.New("the server is shutting down")
+
+type causeErr struct{}
+
+func (causeErr) Error() string { return "cancelled with a cause" }
 
 func (c *cctx) Err() error {
 	i := c.n
@@ -51,6 +58,10 @@ func (c *cctx) Err() error {
 	f := runtime.FuncForPC(pc).Name()
 	c.sites = append(c.sites, f[strings.LastIndex(f, "/")+1:])
 	if i >= c.fire {
+		if c.cancel != nil {
+			c.cancel(errReason) // the reason is the caller's business; the context's error stays context.Canceled
+			return c.Context.Err()
+		}
 		return c.err
 	}
 	return nil
@@ -306,12 +317,18 @@ func main() {
 			}
 			emit(map[string]any{"ev": "return", "res": r})
 			for k := int64(0); k < n; k++ {
-				for _, cerr := range []error{context.Canceled, error(dlErr{})} {
+				for _, cerr := range []error{context.Canceled, error(dlErr{}), error(causeErr{})} {
 					ctxErr := cerr
 					if _, ok := cerr.(dlErr); ok {
 						ctxErr = context.DeadlineExceeded
 					}
 					c := &cctx{Context: context.Background(), fire: k, err: ctxErr}
+					if _, ok := cerr.(causeErr); ok {
+						// a real context cancelled with a cause that does not wrap the context's error
+						ctxErr = context.Canceled
+						inner, cancel := context.WithCancelCause(context.Background())
+						c = &cctx{Context: inner, fire: k, err: ctxErr, cancel: cancel}
+					}
 					pi, ti := parser.NewParser(), newTok()
 					res, gotValue, err := e.call(c, sql, pi, ti)
 					run.Eval(1)
